@@ -59,8 +59,7 @@ func newPair(bin, dir, name string) (*pair, error) {
 	_ = os.RemoveAll(dir)
 	s := daemon.New(bin, dir, "n1")
 	e := daemon.New(bin, filepath.Join(dir, "n2d"), "n2")
-	e.TCPPort = freePort()
-	if err := e.Start(60 * time.Second); err != nil {
+	if err := startListening(e); err != nil {
 		return nil, fmt.Errorf("start n2: %v", err)
 	}
 	r, err := daemon.NewRelay(fmt.Sprintf("127.0.0.1:%d", e.TCPPort))
@@ -193,6 +192,11 @@ func remoteSchedule(res *Result, bin, base, name, prop string, seed int64) *sche
 		res.violate(prop+":"+sig, fmt.Sprintf("[schedule %s] ", name)+fmt.Sprintf(f, a...), map[string]any{"schedule": name, "seed": seed, "dir": sr.SDir})
 	}
 	p, err := newPair(bin, sr.SDir, name)
+	if err != nil {
+		// nothing of the schedule has happened yet: build the pair once more before giving up (recorded in the result)
+		setupNote(fmt.Sprintf("[sched %s] setup retried: %v", name, err))
+		p, err = newPair(bin, sr.SDir, name)
+	}
 	if err != nil {
 		inconc("setup: %v", err)
 
